@@ -1,13 +1,7 @@
 """Per-property texts for MANIFEST.json (kept apart from the job registry)."""
 NOTES = ("Contract-based deductive verification with CBMC code contracts on the real sources; see DESIGN.md. "
          "exit 0 = all obligations discharged, exit 1 = VIOLATION, exit 2 = undecided (tool limit / time-out / broken anchor).")
-NOT_CLAIMED = {
- "C20": "attempted, not decided: harnesses for the real module.c exist (harness/h_module.c: whole run load -> post-init -> unload over a symbolic dependency matrix, and per-phase "
-        "variants for the post-init walk and the unload rounds) but CBMC 6.11's symbolic execution does not get through them within an hour even for 2-3 stub modules (the "
-        "value-set based pointer simplifier dominates; see DESIGN 10.2/10.6). No bounded stand-in small enough to finish still exercises the property, so it is not claimed; "
-        "the jobs stay available as ./vcheck C20 --tier thorough. The diamond defect (F14, module_dfs) was seen by reading and by a seed author, not by a check.",
-
-}
+NOT_CLAIMED = {}
 _IAUTH_NOTE = ("callees are replaced by their executable contracts (spec/iauth_model.h: assert precondition, perform the specified effect on the request and the "
                "ghost log) and each contract is discharged on the real function in its own job; set.c is used through its sorted-map contract (spec/set_model.h), "
                "discharged for the real splay tree in C19 up to N elements; libevent, logging and stdio by contract (stubs/env_iauth.c); histories are covered by "
@@ -132,6 +126,18 @@ CLAIMS = {
   note="bounded stand-in: tree size N (in job ids); CBMC has no inductive heap predicates, so the unbounded shape argument is not attempted. "
        "Pointer comparators: keys inside one object (where C defines the relation); flat address model assumed across objects.",
   technique="CBMC contracts on comparators (DFCC) + bounded inductive-step harness over all well-formed trees on the real set.c"),
+ "C20": dict(
+  text=("The real module.c (load from inside constructors, depth-first post-init walk with loop detection, unload in rounds) is executed by the verifier for EVERY "
+        "dependency graph over three stub modules - all 512 matrices including cycles and self-dependencies - with the configuration naming m0 (quick; plus a rotating third "
+        "of the graphs with the listing m1, m2), and for all nine listings in the thorough tier; plus unloadable-module cases and, for four modules, the diamond and a chain with an unrelated module under all 24 namings each and 96 (thorough: 1024) pseudo-random graphs. "
+        "Each run checks the property's clauses against the event log of the stub modules: constructed once, dependencies constructed first, post-init once and after the "
+        "dependencies' (also along two paths), destructors before those of the dependencies, every module unloaded; a cycle or an unloadable module aborts start-up before "
+        "any member of the cycle is post-initialised. One job per graph: the structure is concrete, so each run is an exact execution of the real code."),
+  design_ref="§5 C20, §10.2",
+  note=("bounded stand-in (exhaustive enumeration of small graphs, not a proof over all graphs): 3 modules exhaustively, 4 modules by families and samples; the property speaks of up "
+        "to 6. dlopen/dlsym/dlclose by model (S4); module table through the set contract instantiated for the keys m0..m3; xmalloc/xrealloc by typed allocation models. "
+        "Found and fixed F14 (two paths to one module taken for a loop)."),
+  technique="CBMC bounded model checking of the real module.c, one job per dependency graph, postconditions over a ghost event log"),
  "C13": dict(
   text="irc_check_mask is proved equal to the 'leading bits equal' specification for every (address, mask, length) "
        "triple by enforcing its contract with DFCC (loops bounded by the 8 groups, unwinding assertions on).",
